@@ -66,7 +66,12 @@ ASSUMPTIONS = [
     "k <= min(p, l+1) (Lagrange: a function of level l is built on its <= l+2 hierarchical ancestors) / k <= min(p, 2^l) "
     "(B-spline) - this equals the statement's min(p, n-1) for B-splines and for Lagrange with p <= 3; global trees whose "
     "complete dyadic depth is m: k <= min(p, m+1) / min(p, 2^m). Polynomials are asserted with boundary=True; with the "
-    "modified B-spline basis only constants; zero-boundary bases reproduce no polynomial by construction",
+    "modified B-spline basis (boundary off): constants always, and linear functions (also between the domain end and the "
+    "first node) for p in {1,3} when the level-2 points are complete and every point is the arithmetic mid point of its "
+    "hierarchical neighbours (the trees the library builds; local grids: level >= 2); not demanded for p >= 5 (only "
+    "the second derivative of the two outermost functions is corrected, which is not enough for a quintic: error 2e-2 "
+    "at level 4), for p = 1 on weighted/relabelled trees (error 0.8) or with a single interior point; zero-boundary "
+    "bases reproduce no polynomial by construction",
     "basis objects are constructed the way the grids and the repository's tests construct them: strictly increasing "
     "knots, LagrangeBasis* with len(knots) <= p+1, LagrangeBasisRestrictedModified with knots that include both domain "
     "ends and index 1..n (test_BasisFunctions), not-a-knot B-splines with the knot formula of BSplineGrid1D / "
@@ -74,7 +79,13 @@ ASSUMPTIONS = [
     "interval arguments and integrates over the support, so it is compared with the integral over the support "
     "(callers pass the whole domain)",
     "derivatives are compared at points >= 10% of the knot interval away from every knot (five-point central "
-    "differences with h = 1e-4 / 1e-3 of the interval, tolerance 1e-5 relative to max(|derivative|, max|f|/w^k))",
+    "differences with h = 1e-4 / 1e-3 of the interval, tolerance 1e-5 relative to max(|derivative|, max|f|/w^k)) and "
+    "exactly AT knots (both support/region ends and three random knots): there the reference is the one-sided limit of "
+    "the difference quotients of __call__ (degree-8 Chebyshev interpolant of 9 values strictly inside the adjacent knot "
+    "interval, exact for the polynomial pieces; tolerance 1e-6) on the side the function VALUE is continuous from (the "
+    "pieces are half-open: BSpline.chi is [k_j, k_j+1), the restricted Lagrange functions are closed on their support); "
+    "where the value is continuous from both sides and the derivative itself jumps (first derivative of a hat, second "
+    "derivative of a quadratic spline, ends of a restricted support) either one-sided derivative is accepted",
 ]
 
 _A = [0.0, -1.0, 2.0, -3.0, 0.25, 0.1, -0.7071067811865476, 1.0]
@@ -280,6 +291,20 @@ def diff2(f, x, h):
     return (-f(x - 2 * h) + 16.0 * f(x - h) - 30.0 * f(x) + 16.0 * f(x + h) - f(x + 2 * h)) / (12.0 * h * h)
 
 
+def one_sided(f, x, w, side):
+    """one-sided limit, first and second derivative of f at x from the right (side=+1) or left (side=-1), from the
+    values of f at 9 Chebyshev points strictly inside the adjacent interval of width w (x itself is NOT evaluated):
+    the degree-8 interpolant is exact for the polynomial pieces of all basis classes (degree <= 7).
+    -> (limit, f', f'', max|f| on the samples)"""
+    import numpy as np
+    n = 9
+    s = 0.5 - 0.5 * np.cos(np.pi * (np.arange(n) + 0.5) / n)            # Chebyshev points of (0, 1)
+    vals = np.array([float(f(x + side * float(t) * w)) for t in s])
+    c = np.polynomial.Chebyshev.fit(s, vals, n - 1, domain=[0.0, 1.0])
+    return (float(c(0.0)), side * float(c.deriv(1)(0.0)) / w, float(c.deriv(2)(0.0)) / (w * w),
+            float(np.max(np.abs(vals))))
+
+
 def compare_nodal(out, sig, got, want, tol, scale, message):
     """|got - want| <= tol*scale elementwise; returns the relative error (inf for a shape mismatch / nan)."""
     import numpy as np
@@ -455,6 +480,11 @@ class _Ctx(object):
     def kmax(self, d):
         """highest polynomial degree demanded in dimension d (see ASSUMPTIONS, 'enough points')"""
         if self.modified:
+            # what the modified basis is for: constants and - cubic/linear splines on arithmetic-mid-point trees with the
+            # complete level 2 - linear functions, also between the domain end and the first node (see ASSUMPTIONS)
+            depth = self.lv[d] if self.kind == "local" else complete_depth(self.trees[d][1])
+            if self.family == "bspline" and self.p in (1, 3) and depth >= 2 and not self.weighted_tree():
+                return 1
             return 0
         if self.kind == "local":
             m = self.lv[d]
@@ -681,6 +711,10 @@ def random_points(cx, rng, m):
             pts[1, d] = cx.end[d]
             if cx.shape[d] > 0:
                 pts[2, d] = cx.xs[d][int(rng.integers(0, cx.shape[d]))]
+        if m >= 8 and cx.shape[d] > 0:
+            # between the end of the box and the first / last node (the extrapolation region of the modified bases)
+            pts[3, d] = cx.start[d] + rng.random() * (cx.xs[d][0] - cx.start[d])
+            pts[4, d] = cx.xs[d][-1] + rng.random() * (cx.end[d] - cx.xs[d][-1])
     return [tuple(float(c) for c in row) for row in pts]
 
 
@@ -819,6 +853,8 @@ def run_polynomials(case):
             return False
         mats, cond = res
         out.cls("demanded-degree=%d" % max(kmax))
+        if cx.modified:
+            out.cls("modified:linear-demanded" if max(kmax) >= 1 else "modified:constants-only")
         if max(kmax) == cx.p and cx.p >= 3:
             out.cls("full-order-demanded(p>=3)")
         if not cond <= COND_SKIP:
@@ -1053,6 +1089,60 @@ def check_basis_object(out, sub, kind, f, info, p, rng, nsamples=6):
             nsamp += 1
     out.info["d1_rel_err"] = e1max
     out.info["d2_rel_err"] = e2max
+    # derivatives exactly AT knots (interior knots and support ends): compared with the one-sided limits of the
+    # difference quotients of __call__.  The side is the one the function VALUE is continuous from (half-open pieces);
+    # a function that is continuous from both sides may return either one-sided derivative where the derivative jumps.
+    allk = sorted(set(float(t) for t in knots))
+    cand = [t for t in allk if lo <= t <= hi]
+    e_at = 0.0
+    if cand and len(allk) >= 2:
+        chosen = sorted(set([cand[0], cand[-1]] + [cand[int(i)] for i in rng.integers(0, len(cand), size=3)]))
+        for x in chosen:
+            i = allk.index(x)
+            wl = x - allk[i - 1] if i > 0 else allk[i + 1] - x
+            wr = allk[i + 1] - x if i + 1 < len(allk) else wl
+            vL, d1L, d2L, mL = one_sided(f, x, wl, -1)
+            vR, d1R, d2R, mR = one_sided(f, x, wr, +1)
+            fx = float(f(x))
+            fm = max(mL, mR, abs(fx))
+            tolv = 1e-8 * max(fm, 1e-300)
+            contL, contR = abs(fx - vL) <= tolv, abs(fx - vR) <= tolv
+            sides = []
+            if contR or not contL:
+                sides.append(("right", d1R, d2R, wr))
+            if contL or not contR:
+                sides.append(("left", d1L, d2L, wl))
+            out.cls("at-knot:value-continuous" if (contL and contR) else "at-knot:value-one-sided")
+            for order, lib_fn in ((1, f.get_first_derivative), (2, f.get_second_derivative)):
+                lib = float(lib_fn(x))
+                nums = [(nm, (d1 if order == 1 else d2), w_) for nm, d1, d2, w_ in sides]
+                rels = [abs(lib - num) / max(abs(lib), abs(num), fm / w_ ** order, 1e-300) for nm, num, w_ in nums]
+                if len(nums) == 2 and abs(nums[0][1] - nums[1][1]) > 1e-6 * max(abs(nums[0][1]), abs(nums[1][1]),
+                                                                                 fm / min(wl, wr) ** order):
+                    out.cls("at-knot:derivative%d-jumps" % order)
+                rel = min(rels)
+                if info.get("unmodified") is None:
+                    e_at = max(e_at, rel)
+                # tolerance 1e-6 relative (seen on the unchanged tree: 1e-11 first, 3e-10 second derivative)
+                if not rel <= 1e-6:
+                    cause = ""
+                    un = info.get("unmodified")
+                    if un is not None:
+                        for sd, w_ in ((-1, wl), (+1, wr)):
+                            u = one_sided(un, x, w_, sd)
+                            num_un = u[1] if order == 1 else u[2]
+                            if abs(lib - num_un) <= 1e-6 * max(abs(lib), abs(num_un), fm / w_ ** order):
+                                cause = "/is-derivative-of-unmodified-polynomial"
+                    # the same root cause as away from the knots gets the same signature (finding F-C10-b)
+                    sig = ("%s/derivative%d/%s%s" if cause else "%s/derivative%d-at-knot/%s%s") % (sub, order, kind, cause)
+                    if not any(sg == sig for sg, _ in out.violations):
+                        out.bad(sig, "%s p=%d knots=%s index=%s: get_%s_derivative(%r) = %r AT a knot; one-sided limits of the "
+                                "difference quotients of __call__: %s (value at the knot %r, limits left %r right %r)"
+                                % (kind, p, [round(t, 6) for t in knots][:12], getattr(f, "index", None),
+                                   "first" if order == 1 else "second", x, lib,
+                                   ", ".join("%s %r" % (nm, num) for nm, num, w_ in nums), fx, vL, vR))
+            nsamp += 1
+    out.info["d_at_knot_rel_err"] = e_at
     # integral
     xs, ws = np.polynomial.legendre.leggauss(int(p / 2) + 1)
     lib = float(f.get_integral(info["ia"], info["ib"], xs, ws))
@@ -1269,6 +1359,8 @@ def _global_case(draw, tier, poly=False, maxdim=3):
         mode = draw(st.sampled_from(["boundary", "boundary", "boundary", "modified"] if poly else
                                     ["boundary", "boundary", "noboundary", "modified"]))
         need = draw(st.sampled_from([0, 0, {1: 1, 3: 2, 5: 3}[p]])) if poly else 0
+        if poly and mode == "modified":
+            need = draw(st.sampled_from([0, 2, 2, 3]))          # linear functions are demanded from complete depth 2 on
     bigdim = draw(st.integers(0, dim - 1))
     big1 = 40 if tier == "quick" else 60
     sizes = []
@@ -1290,6 +1382,7 @@ def _global_case(draw, tier, poly=False, maxdim=3):
             lo = 13 if mode == "boundary" else 15
             hi = max(hi, lo)
         trees.append(draw(_tree(hi, min_complete=0 if small else need, min_splits=lo,
+                                weighted_ok=not (poly and mode == "modified" and need >= 2),
                                 max_level=(11 if tier == "quick" else 13) if family == "bspline" else 60)))
     max_level = (11 if tier == "quick" else 13) if family == "bspline" else 60
     case = dict(kind="global", family=family, p=p, mode=mode, a=a, len=ln, trees=trees, max_level=max_level,
